@@ -198,7 +198,8 @@ def value_classes(mn, mx, default):
 def alphabet(cfg):
     """operation alphabet of a configuration: list of (opname, args)"""
     n = len(cfg["names"])
-    ops = [("reset",), ("clone",), ("dict",), ("badkey",), ("all_wronglen",)]
+    ops = [("reset",), ("clone",), ("dict",), ("badkey",), ("all_wronglen",),
+           ("all_self",)]
     if n == 0:
         ops += [("all", [])]
         return ops
@@ -218,6 +219,7 @@ def alphabet(cfg):
     wnan = list(ins)
     wnan[i0] = NAN
     ops += [("all", ins), ("all", out_hi), ("all", out_lo), ("all", wnan)]
+    ops.append(("all_edit", i1, vc1["above"]))
     if n >= 2:
         # a missing component together with an out-of-bounds one in the same assignment
         wnan_out = list(ins)
@@ -230,8 +232,12 @@ def alphabet(cfg):
 # ------------------------------------------------------------- sequence run ----
 def make(cfg):
     from hydrodiy.data.containers import Vector
-    v = Vector(cfg["names"], cfg["defaults"], cfg["mins"], cfg["maxs"],
+    # the names arrive as an array of strings which the caller re-uses afterwards
+    narr = np.array(cfg["names"]) if len(cfg["names"]) else cfg["names"]
+    v = Vector(narr, cfg["defaults"], cfg["mins"], cfg["maxs"],
                check_hitbounds=cfg["check_hitbounds"], accept_nan=cfg["accept_nan"])
+    if len(cfg["names"]):
+        narr[:] = "zz"
     m = Model(cfg["names"], cfg["defaults"], cfg["mins"], cfg["maxs"],
               cfg["check_hitbounds"], cfg["accept_nan"])
     return v, m
@@ -306,10 +312,30 @@ def apply_op(ctx, v, m, op, case):
             ctx.check("assign.rejected", raised, f"Vector|{kind}|accepts-invalid",
                       case, {"op": op})
         where = kind
-    elif kind in ("all", "all_wronglen"):
-        xs = op[1] if kind == "all" else list(m.values) + [0.25]
+    elif kind in ("all", "all_wronglen", "all_self", "all_edit"):
+        if kind == "all_edit" and (math.isnan(float(op[2])) or not len(m.names)):
+            # (a NaN written straight into the array the getter hands out would be the
+            # caller's own doing if the vector then refuses the assignment)
+            kind = "all_self"
+        if kind == "all_self":
+            # the array the getter hands out, assigned back unchanged
+            xs = v.values
+        elif kind == "all_edit":
+            # ... or after the caller edited one entry of it
+            xs = v.values
+            if len(m.names):
+                xs[op[1] % len(m.names)] = op[2]
+        else:
+            xs = op[1] if kind == "all" else list(m.values) + [0.25]
+        if kind == "all_edit" and len(m.names):
+            expect = list(m.values)
+            expect[op[1] % len(m.names)] = op[2]
+        elif kind == "all_self":
+            expect = list(m.values)
+        else:
+            expect = xs
         m2 = m.copy()
-        acc = m2.set_all([float(x) for x in xs])
+        acc = m2.set_all([float(x) for x in expect])
         try:
             v.values = xs
             raised = False
@@ -501,7 +527,8 @@ def run_vectors(ctx):
                 seq.append(("all", xs))
             else:
                 seq.append([("reset",), ("clone",), ("dict",), ("badkey",),
-                            ("all_wronglen",)][int(rng.integers(0, 5))])
+                            ("all_wronglen",), ("all_self",),
+                            ("all_edit", i, val)][int(rng.integers(0, 7))])
         case = {"kind": "vecseq", "config": cfg, "seq": seq}
         ctx.tag("vec:random-seq")
         ctx.evaluated()
